@@ -206,6 +206,8 @@ impl Tileset<RawPixels> {
                     .and_then(|n| n.checked_mul(tile_width as usize))
                     // the byte count is computed from this later on
                     .filter(|n| n.checked_mul(pixel_format.bytes_per_pixel()).is_some())
+                    // `Tileset::image` stacks all tiles into one image
+                    .filter(|_| tile_count as u64 * tile_height as u64 <= u32::MAX as u64)
                     .ok_or_else(|| {
                         AsepriteParseError::InvalidInput(format!(
                             "Tileset {} is too large: {} tiles of {}x{} pixels",
